@@ -6,6 +6,6 @@ CONSTANTS
   LocalReadsOnROPool = TRUE
   StrongQueryOnROPool = TRUE
   Nodes = {n1, n2, n3}
-  SeqClasses = {"select", "write", "ro-head-rw-tail", "explain-write", "explain-ro-head-rw-tail", "pragma-optimize", "insert-returning"}
+  SeqClasses = {"select", "write", "ro-head-rw-tail", "ro-head-ddl-tail", "rw-head-ro-tail", "explain-write", "explain-ro-head-rw-tail", "explain-rw-head-rw-tail", "pragma-optimize", "insert-returning"}
   MaxLen = 3
 INVARIANTS TypeOK NoChangeByRead OnlyThroughLog EveryNode
